@@ -195,11 +195,11 @@ def main(root, repo, tier, replay):
                 p[1] = (p[1] & 0x0F) | ((n & 0xF) << 4)
                 f.write("%s:%d %s\n" % (label, n, frame(p).hex()))
 
-    def build_and_run(w, feats):
+    def build_and_run(w, feats, serde=True):
         tdir = os.path.join(work, "w%d" % w)
         # std + serde: together with the no_std probe (no serde) the quick tier sees every single feature
         # with serde off and on
-        cmd = ["cargo", "build", "--release", "--offline", "--no-default-features", "-j", str(jobs), "--features", ",".join(feats + ["std", "serde"])]
+        cmd = ["cargo", "build", "--release", "--offline", "--no-default-features", "-j", str(jobs), "--features", ",".join(feats + ["std"] + (["serde"] if serde else []))]
         rc, out = run(cmd, drv, env(tdir))
         if rc != 0:
             return None, out
@@ -212,6 +212,13 @@ def main(root, repo, tier, replay):
     ref, out = build_and_run(0, ["all_msgs"])
     transitions += 1
     machinery = None
+    if ref is None and re.search(r"^error(\[E\d+\])?:", out, re.M) and "could not compile `rtcm-rs`" in out:
+        # the full selection itself does not compile with serde: a finding about that configuration;
+        # the comparison below then uses the reference built without serde (its output does not depend on it)
+        errs = [l for l in out.splitlines() if l.startswith("error")]
+        violations.append(("driver-build:all_msgs+serde", "the crate does not build with all_msgs, std and serde: %s" % " | ".join(errs[:3]), {"kind": "feature_config", "config": {"features": ["all_msgs", "std"], "serde": True}, "step": "driver", "output_tail": "\n".join(out.splitlines()[-25:])}))
+        ref, out = build_and_run(0, ["all_msgs"], serde=False)
+        transitions += 1
     if ref is None:
         machinery = "reference driver (all_msgs) does not build/run: " + "\n".join(out.splitlines()[-15:])
     else:
